@@ -923,6 +923,20 @@ func cmdCheck(args []string) int {
 			exit = 1
 			continue
 		}
+		if (v.Replay == "" || !rr.confirm(v)) && rr.runSeedOnce(v.Index) == v.Class {
+			// the shrunk tape does not fail the same way in a fresh process (shrinking runs hundreds of
+			// candidate worlds in one process; state a dependency keeps outside the simulator's pools, or an
+			// allocation total a few bytes from its budget, can make a candidate look failing): report the
+			// unshrunk world, replayed from its seed in a fresh process
+			rf := map[string]interface{}{"property": cfg.ID, "tier": *tier, "flavour": rr.build, "simd": rr.simd, "verif_seed": rr.seed, "world_index": v.Index, "tree_hash": rr.tree,
+				"by_seed": true, "violation": map[string]interface{}{"class": v.Class, "detail": v.Detail, "facts": v.Facts},
+				"decoded": []string{"(not minimised: the shrunk tape did not reproduce in a fresh process; the world is replayed from its seed)"}}
+			name := filepath.Join(verifDir, "replays", fmt.Sprintf("%s-%d-%d-seed.json", cfg.ID, rr.seed, v.Index))
+			jb, _ := json.MarshalIndent(rf, "", " ")
+			os.MkdirAll(filepath.Dir(name), 0o755)
+			os.WriteFile(name, jb, 0o644)
+			v.Replay, v.Confirm = name, "by_seed"
+		}
 		if v.Replay == "" || !rr.confirm(v) {
 			nonReplayable++
 			fmt.Fprintf(os.Stderr, "dynsim: NON-REPLAYABLE failure class=%s world=%d: %s\n%s\n", v.Class, v.Index, v.Confirm, tail(v.Detail, 1500))
